@@ -36,7 +36,7 @@ pub fn qrcode_symbol(mode: Mode, input: &[u8], v: usize, l: Level) -> Result<Vec
     .map_err(|e| format!("qrcode push: {:?}", e))?;
     bits.push_terminator(ql(l)).map_err(|e| format!("qrcode terminator: {:?}", e))?;
     let code = QrCode::with_bits(bits, ql(l)).map_err(|e| format!("qrcode with_bits: {:?}", e))?;
-    Ok(code.to_vec())
+    Ok(code.to_colors().into_iter().map(|c| c == qrcode::Color::Dark).collect())
 }
 
 /// Returns (symbols checked, Err(description) on the first disagreement)
